@@ -222,3 +222,59 @@ def h_negation_fold(v: int, kind: int) -> bool:
     if expect is None:
         return out is node and node.operand is operand
     return isinstance(out, ast.Constant) and out.value == expect and type(out.value) is not bool
+
+
+def _all_nodes(n):
+    yield n
+    for c in ast.iter_child_nodes(n):
+        yield from _all_nodes(c)
+
+
+def h_negation_in_program(v: int, shape: int) -> bool:
+    """
+    pre: 0 <= shape < 4
+    post: _
+    """
+    # The same source literal can be reached twice by the builder (a chained comparison shares its middle operand between
+    # the two generated comparisons; an augmented assignment / conditional expression re-visits sub-expressions): every
+    # occurrence in the built CFG must still be exactly -v.  Runs the real CFGBuilder on a program built around `-v`.
+    import inspect
+    from guppylang_internals.checker.core import Globals
+
+    def lit():
+        return ast.UnaryOp(op=ast.USub(), operand=ast.Constant(value=v))
+
+    a, b = ast.Name(id="a", ctx=ast.Load()), ast.Name(id="b", ctx=ast.Load())
+    if shape == 0:      # return a < -v < b
+        body = [ast.Return(value=ast.Compare(left=a, ops=[ast.Lt(), ast.Lt()], comparators=[lit(), b]))]
+        want = 2
+    elif shape == 1:    # return a < -v <= b < -v   (two literals, the first one shared)
+        body = [ast.Return(value=ast.Compare(left=a, ops=[ast.Lt(), ast.LtE(), ast.Lt()], comparators=[lit(), b, lit()]))]
+        want = 3
+    elif shape == 2:    # if a < -v < b: return -v  else: return a
+        body = [ast.If(test=ast.Compare(left=a, ops=[ast.Lt(), ast.Lt()], comparators=[lit(), b]),
+                       body=[ast.Return(value=lit())], orelse=[ast.Return(value=a)])]
+        want = 3
+    else:               # x = -v; return x + (-v)
+        body = [ast.Assign(targets=[ast.Name(id="x", ctx=ast.Store())], value=lit()),
+                ast.Return(value=ast.BinOp(left=ast.Name(id="x", ctx=ast.Load()), op=ast.Add(), right=lit()))]
+        want = 2
+    mod = ast.Module(body=body, type_ignores=[])
+    for n in _all_nodes(mod):
+        if isinstance(n, (ast.expr, ast.stmt)):
+            set_location_from(n, NODE)
+    orig = B.ExprBuilder.visit_UnaryOp
+    B.ExprBuilder.visit_UnaryOp = fold_neg
+    try:
+        cfg = B.CFGBuilder().build(body, False, Globals(inspect.currentframe()))
+    finally:
+        B.ExprBuilder.visit_UnaryOp = orig
+    found = []
+    for bb in cfg.bbs:
+        for root in [*bb.statements, *([bb.branch_pred] if bb.branch_pred is not None else [])]:
+            for n in _all_nodes(root):
+                if isinstance(n, ast.Constant) and isinstance(n.value, int) and not isinstance(n.value, bool):
+                    found.append(n.value)
+                if isinstance(n, ast.UnaryOp) and isinstance(n.op, ast.USub):
+                    return False      # a negated literal that was not folded
+    return len(found) == want and all(x == -v for x in found)
